@@ -10,6 +10,7 @@ import (
 	"verif/sim/kit"
 
 	"github.com/ichiban/prolog"
+	"github.com/ichiban/prolog/engine"
 )
 
 // ---------------------------------------------------------------------------
@@ -89,8 +90,13 @@ type c18Op struct {
 	List  bool     `json:"list,omitempty"`
 	Tail  string   `json:"tail,omitempty"` // "" proper list, "_" partial list, "x" improper
 	N     string   `json:"n,omitempty"`
-	Near  int      `json:"near,omitempty"` // query: derived at run time from an entry of the current table (picked by this number) and perturbed
+	Near  int      `json:"near,omitempty"`  // query: derived at run time from an entry of the current table (picked by this number) and perturbed
+	Steps []c18Op  `json:"steps,omitempty"` // text: op directives and probe clauses ("clause": Shape, N, M) read by ONE parser in one Exec
+	Shape string   `json:"shape,omitempty"`
+	M     string   `json:"m,omitempty"`
 }
+
+var c18Shapes = []string{"chain", "mixed", "prefix", "postfix", "prefix-chain", "postfix-chain"}
 
 type c18Table map[[2]string][2]string // (name, class) -> (priority, specifier)
 
@@ -221,7 +227,30 @@ func c18Gen(r *kit.Run) []c18Op {
 		return op
 	}
 	for i := 0; i < n; i++ {
-		switch g.Weighted(6, 3, 1) {
+		switch g.Weighted(6, 3, 1, 2) {
+		case 3:
+			// one text, one parser: directives that change the table alternate with clauses that are read under it
+			tx := c18Op{Kind: "text"}
+			last := ""
+			for k, m := 0, 2+g.Choose(6); k < m; k++ {
+				if g.Choose(2) == 0 {
+					o := c18Op{Kind: "op", P: fmt.Sprint(c18Prios[g.Choose(len(c18Prios))]), S: c18Specs[g.Choose(len(c18Specs))]}
+					o.Names = []string{c18Pool[g.Choose(len(c18Pool))]}
+					if g.Choose(3) == 0 {
+						o.List = true
+						o.Names = append([]string{c18Pool[g.Choose(len(c18Pool))]}, o.Names...)
+					}
+					last = o.Names[len(o.Names)-1]
+					tx.Steps = append(tx.Steps, o)
+					continue
+				}
+				c := c18Op{Kind: "clause", Shape: c18Shapes[g.Choose(len(c18Shapes))], N: c18Pool[g.Choose(len(c18Pool))], M: c18Pool[g.Choose(len(c18Pool))]}
+				if last != "" && g.Choose(3) > 0 {
+					c.N = last // the name the preceding directive touched
+				}
+				tx.Steps = append(tx.Steps, c)
+			}
+			ops = append(ops, tx)
 		case 0:
 			ops = append(ops, genOp())
 		case 1:
@@ -295,8 +324,52 @@ func (o c18Op) goal() string {
 		return fmt.Sprintf("op(%s, %s, %s)", o.P, o.S, names)
 	case "query":
 		return fmt.Sprintf("current_op(%s, %s, %s)", o.P, o.S, o.N)
+	case "clause":
+		switch o.Shape {
+		case "chain":
+			return fmt.Sprintf("1 %s 2 %s 3", o.N, o.N)
+		case "mixed":
+			return fmt.Sprintf("1 %s 2 %s 3", o.N, o.M)
+		case "prefix":
+			return fmt.Sprintf("%s (1)", o.N)
+		case "postfix":
+			return fmt.Sprintf("1 %s ", o.N)
+		case "prefix-chain":
+			return fmt.Sprintf("%s %s (1)", o.N, o.N)
+		case "postfix-chain":
+			return fmt.Sprintf("1 %s %s ", o.N, o.N)
+		}
+		kit.Bug("c18 shape %q", o.Shape)
+	case "text":
+		var sb strings.Builder
+		for _, st := range o.Steps {
+			if st.Kind == "op" {
+				sb.WriteString(":- " + st.goal() + ". ")
+			} else {
+				sb.WriteString(st.goal() + ". ")
+			}
+		}
+		return "text{" + sb.String() + "}"
 	}
 	return "probe(" + o.N + ")"
+}
+
+// c18Readable says whether a probe clause can be read at all: every name it uses in operator position must have an
+// operator of some class in the table (which term it then denotes, or whether priorities and specifiers make it a syntax
+// error, is decided by the twin reader, see Exec).
+func c18Readable(t c18Table, o c18Op) bool {
+	has := func(n string) bool {
+		for _, c := range []string{"prefix", "infix", "postfix"} {
+			if _, ok := t[[2]string{n, c}]; ok {
+				return true
+			}
+		}
+		return false
+	}
+	if o.Shape == "mixed" {
+		return has(o.N) && has(o.M)
+	}
+	return has(o.N)
 }
 
 func (c18) Exec(r *kit.Run) {
@@ -311,6 +384,27 @@ func (c18) Exec(r *kit.Run) {
 	out := &kit.SimWriter{Run: r}
 	interp := prolog.New(strings.NewReader(""), out)
 	_ = io.Discard
+	// clauses of "text" steps are not stored: what the loader read is reported through note/1
+	var notes []string
+	interp.Register1(engine.NewAtom("note"), func(_ *engine.VM, t engine.Term, k engine.Cont, env *engine.Env) *engine.Promise {
+		notes = append(notes, kit.CanonTerm(t, env, kit.NewRenamer()))
+		return k(env)
+	})
+	if err := interp.Exec("term_expansion(T, (:- note(T))) :- T \\= (:- _)."); err != nil {
+		kit.Bug("c18 prelude: %v", err)
+	}
+	// the twin receives the same history, but every term of a "text" step through a parser of its own (one Exec per term):
+	// what a clause denotes under a given table is taken from there (a pure function of table and text, outside this
+	// property), that a long-lived parser reads it the same way under the table in force is what is checked
+	var twinNotes []string
+	twin := prolog.New(strings.NewReader(""), io.Discard)
+	twin.Register1(engine.NewAtom("note"), func(_ *engine.VM, t engine.Term, k engine.Cont, env *engine.Env) *engine.Promise {
+		twinNotes = append(twinNotes, kit.CanonTerm(t, env, kit.NewRenamer()))
+		return k(env)
+	})
+	if err := twin.Exec("term_expansion(T, (:- note(T))) :- T \\= (:- _)."); err != nil {
+		kit.Bug("c18 prelude: %v", err)
+	}
 
 	dump := func(q string) ([]string, error) {
 		sols, err := interp.Query(q + ".")
@@ -370,6 +464,9 @@ func (c18) Exec(r *kit.Run) {
 			before := table()
 			must, next := c18Eval(model, o)
 			err := interp.QuerySolution(o.goal() + ".").Err()
+			if terr := twin.QuerySolution(o.goal() + ".").Err(); (terr != nil) != (err != nil) {
+				kit.Bug("c18: %s returned %v on the interpreter and %v on its twin", o.goal(), err, terr)
+			}
 			after := table()
 			r.Logf("%d %s -> %s", i, o.goal(), kit.CanonErr(err))
 			sig := c18Sig(o)
@@ -455,6 +552,71 @@ func (c18) Exec(r *kit.Run) {
 			if !c18Probe(r, interp, out, model, o.N, texts[:i]) {
 				return
 			}
+		case "text":
+			// walk the steps with the model and the twin; the text ends with the first step that fails there
+			var sb strings.Builder
+			next := model.clone()
+			mustFail := ""
+			twinNotes = twinNotes[:0]
+			for _, st := range o.Steps {
+				if st.Kind == "op" {
+					must, nt := c18Eval(next, st)
+					if must == "either" {
+						continue
+					}
+					sb.WriteString(":- " + st.goal() + ".\n")
+					terr := twin.Exec(":- " + st.goal() + ".")
+					if (terr != nil) != (must == "yes") {
+						r.Fail("table-mismatch", "directive-op-outcome", "directive %s returned %s; by the ISO rules must it raise: %s (history: %s)", st.goal(), kit.CanonErr(terr), must, strings.Join(texts[:i], ", "))
+						return
+					}
+					if must == "yes" {
+						mustFail = st.goal()
+						break
+					}
+					next = nt
+					continue
+				}
+				sb.WriteString(st.goal() + ".\n")
+				k := len(twinNotes)
+				if terr := twin.Exec(st.goal() + "."); terr != nil {
+					mustFail = st.goal()
+					break
+				}
+				if len(twinNotes) != k+1 {
+					kit.Bug("c18 twin: clause %s reported %v", st.goal(), twinNotes[k:])
+				}
+				if !c18Readable(next, st) {
+					r.Fail("read-uses-other-table", "clause-read-without-operator:"+st.Shape, "%s was read as %s by a new parser although the table has no operator for a name it uses as one (history: %s)", st.goal(), twinNotes[k], strings.Join(texts[:i], ", "))
+					return
+				}
+			}
+			texts[i] = "text{" + strings.ReplaceAll(sb.String(), "\n", " ") + "}"
+			notes = notes[:0]
+			err := interp.Exec(sb.String())
+			r.Logf("%d %s -> %s; read: %v; twin: %v", i, texts[i], kit.CanonErr(err), notes, twinNotes)
+			r.Probe("text-with-directives-and-clauses")
+			hist := strings.Join(texts[:i+1], ", ")
+			if !kit.SameList(notes, twinNotes) {
+				r.Fail("read-uses-other-table", "text:clauses-read-differently-by-long-lived-parser", "the clauses of %s were read as %v; read one by one, each by a new parser under the table in force at that point, they are %v (history: %s)", texts[i], notes, twinNotes, hist)
+				return
+			}
+			if (err != nil) != (mustFail != "") {
+				r.Fail("read-uses-other-table", fmt.Sprintf("text:failed=%v", err != nil), "%s returned %s; read term by term it fails at: %q (history: %s)", texts[i], kit.CanonErr(err), mustFail, hist)
+				return
+			}
+			if err != nil {
+				failed++
+				r.Fault("failing-step-in-text")
+			}
+			if after := table(); !kit.SameList(next.dump(), after) {
+				r.Fail("table-mismatch", "table-differs-after-text", "after %s the table differs from the ISO model: %s (history: %s)", texts[i], c18Diff(next.dump(), after), hist)
+				return
+			}
+			if len(next) != len(model) || !kit.SameList(next.dump(), model.dump()) {
+				changed++
+			}
+			model = next
 		}
 	}
 	// final probes for every pool name
